@@ -119,7 +119,9 @@ pub(crate) fn s_validate_index_u64(t: &TypedArray, i: u64, buf: usize) -> Option
 
 fn any_kind() -> TypedArrayKind {
     let k: u8 = kani::any();
-    match k % 11 {
+    match k % 12 {
+        #[cfg(feature = "float16")]
+        11 => TypedArrayKind::Float16,
         0 => TypedArrayKind::Int8,
         1 => TypedArrayKind::Uint8,
         2 => TypedArrayKind::Uint8Clamped,
